@@ -183,6 +183,14 @@ func (peer *peer) isIBGPPeer() bool {
 	return conf.State.PeerType == oc.PEER_TYPE_INTERNAL
 }
 
+// isConfederationMember reports whether the session is with a member AS of
+// the local confederation (RFC 5065): such a peer is external by its AS
+// number but exchanges LOCAL_PREF like an internal one.
+func (peer *peer) isConfederationMember() bool {
+	info := peer.peerInfo.Load()
+	return info != nil && info.Confederation
+}
+
 func (peer *peer) isRouteServerClient() bool {
 	conf := peer.fsm.pConf.ReadOnly()
 	return conf.RouteServer.Config.RouteServerClient
